@@ -63,7 +63,7 @@ func runC16(c *Ctx) {
 	} {
 		f := cl + api.name
 		expect := `^call:client\.\(\*Client\)\.expectReply\(%c, ` + id + `\)$`
-		send := `^send:call:invoke:wamp\.Peer\.Send\[%c\.sess\.Peer\]\(\)<-new\(wamp\.` + api.msg + `\)$`
+		send := `^call:client\.\(\*Client\)\.send\(%c, new\(wamp\.` + api.msg + `\)\)$`
 		wait := `^call:client\.\(\*Client\)\.` + api.wait + `\(%c, (%ctx, )?` + id
 		c.Reach(r2, f, "waiter registered before the request is sent", ReachSpec{Stop: expect, Cut: pubNoAck(api.name), Target: send, Want: false})
 		c.Reach(r2, f, "request sent before waiting", ReachSpec{Stop: send, Target: wait, Want: false})
@@ -125,9 +125,9 @@ func runC16(c *Ctx) {
 
 	const r4 = "C16.R4 cancellation sends CANCEL with the configured mode and returns the context's error"
 	ctxDone := clause("context done", T(`^\(select\{recv:%c\.awaitingReply\[%id\],ok#0\.msgs;recv:call:invoke:context\.Context\.Done\[%ctx\]\(\);recv:call:client\.\(\*Client\)\.Done\(%c\)\}#0 == 1\)$`))
-	c.Guard(r4, wc, "CANCEL sent", `^send:call:invoke:wamp\.Peer\.Send\[%c\.sess\.Peer\]\(\)<-new\(wamp\.Cancel\)$`, 1, ctxDone)
+	c.Guard(r4, wc, "CANCEL sent", `^call:client\.\(\*Client\)\.send\(%c, new\(wamp\.Cancel\)\)$`, 1, ctxDone)
 	c.Fields(r4, wc, "CANCEL literal", "wamp.Cancel", nil, map[string]string{"Request": `^%id$`, "Options": `^call:wamp\.SetOption\(nil, "mode", %c\.cancelMode\)$`}, 1)
-	c.Reach(r4, wc, "a done context always sends CANCEL", ReachSpec{FromEdge: &ctxDone, Stop: `^send:call:invoke:wamp\.Peer\.Send\[%c\.sess\.Peer\]\(\)<-new\(wamp\.Cancel\)$`, Target: "EXIT", Want: false})
+	c.Reach(r4, wc, "a done context always sends CANCEL", ReachSpec{FromEdge: &ctxDone, Stop: `^call:client\.\(\*Client\)\.send\(%c, new\(wamp\.Cancel\)\)$`, Target: "EXIT", Want: false})
 	c.Has(r4, wc, "error is the context's error", `^call:invoke:context\.Context\.Err\[%ctx\]\(\)$`, 1)
 	c.Has(r4, cl+"SetCallCancelMode", "mode validated", `^store:%c\.&cancelMode=`, 1)
 	c.R.Floor(r4, 6)
